@@ -102,6 +102,14 @@ def isStructural : Kind → Bool
   | .branch | .okMatch | .errMatch => true
   | _ => false
 
+def isMatcher : Kind → Bool
+  | .okMatch | .errMatch => true
+  | _ => false
+
+/-- every matcher hangs off one node only (its `MatchBranching` node). -/
+def oneParent (g : Graph) : Bool :=
+  (List.range g.size).all (fun m => !isMatcher (g.kind m) || decide ((g.edges.filter (·.dst == m)).length ≤ 1))
+
 inductive Ev where
   /-- the component behind node `n` was invoked and returned normally -/
   | call (n : Nat) (k : Kind)
@@ -128,8 +136,8 @@ def frag (g : Graph) : Nat → Nat → List Ev
 structure St where
   /-- nodes for which a code fragment exists (↔ `blocks`) -/
   bound : List Nat := []
-  /-- what ran, in order -/
-  out : List Ev := []
+  /-- the nodes whose statement ran, in order (callables without output run where they are inlined) -/
+  ran : List Nat := []
   /-- the `Err` matchers whose arm was entered -/
   errs : List Nat := []
   /-- the matchers whose arm was entered -/
@@ -138,14 +146,21 @@ structure St where
   stuck : Bool := false
   deriving Repr, DecidableEq
 
-/-- emit the statement for node `n` (↔ the `Compute` / `InputParameter` arms of the visitor loop). -/
-def step (g : Graph) (fails : Kind → Bool) (st : St) (n : Nat) : St :=
+/-- what running the statement of node `n` logs: the inlined calls, then the component itself. -/
+def emit (g : Graph) (fails : Kind → Bool) (n : Nat) : List Ev :=
+  frag g g.size n ++ [if fails (g.kind n) then Ev.fail n (g.kind n) else Ev.call n (g.kind n)]
+
+/-- everything that ran, in order -/
+def outOf (g : Graph) (fails : Kind → Bool) (st : St) : List Ev := st.ran.flatMap (emit g fails)
+
+/-- emit the statement for node `n` (↔ the `Compute` / `InputParameter` arms of the visitor loop):
+    every fragment it refers to must exist; a callable without output is only recorded. -/
+def step (g : Graph) (st : St) (n : Nat) : St :=
   let k := g.kind n
   if isStructural k then st
   else if (g.dataPreds n).all st.bound.contains && (g.befores n).all st.bound.contains then
     if isUnit k then { st with bound := n :: st.bound }
-    else { st with bound := n :: st.bound,
-                   out := st.out ++ frag g g.size n ++ [if fails k then Ev.fail n k else Ev.call n k] }
+    else { st with bound := n :: st.bound, ran := st.ran ++ [n] }
   else { st with stuck := true }
 
 def minOf : List Nat → Option Nat
@@ -166,11 +181,12 @@ def exec (g : Graph) (fails : Kind → Bool) : Nat → List Nat → List Nat →
       let s := (minOf ((g.branchAnc t).filter (fun b => !fin.contains b))).getD t
       let blk := (List.range (s + 1)).filter
         (fun n => !fin.contains n && (g.kind n != .branch || n == s) && g.shares n s)
-      let st := blk.foldl (step g fails) st
+      let st := blk.foldl (step g) st
       if g.kind s == .branch then
         match scrutinee g s with
         | none => ({ st with stuck := true }, none)
         | some x =>
+          if !(g.dataPreds s).all st.bound.contains then ({ st with stuck := true }, none) else
           let failed := fails (g.kind x)
           let want := if failed then Kind.errMatch else Kind.okMatch
           match (g.succs s).find? (fun v => g.kind v == want) with
@@ -179,9 +195,10 @@ def exec (g : Graph) (fails : Kind → Bool) : Nat → List Nat → List Nat →
             let tg := targets.filter (g.sinksOf v).contains
             let tg := if tg.isEmpty then g.sinksOf v else tg
             exec g fails fuel tg (fin ++ blk)
-              { st with bound := v :: st.bound, chosen := v :: st.chosen,
+              { st with bound := v :: s :: st.bound, chosen := v :: st.chosen,
                         errs := if failed then v :: st.errs else st.errs }
-      else (st, some s)
+      else if st.bound.contains s then (st, some s)
+      else ({ st with stuck := true }, none)
 
 /-- the terminal of the happy path: the sink below the root on the `Ok` side
     (↔ the `new_root_index` computed at the end of `build_call_graph`). -/
@@ -434,8 +451,18 @@ def lastEhStatus (env : Env) : List Ev → Option Nat
       | .call _ .ehDefault => some 500
       | _ => none
 
-def outcomeOf (env : Env) (st : St) : Outcome :=
-  if st.errs.isEmpty then .ok else .err ((lastEhStatus env st.out).getD 500)
+structure Run where
+  evs : List Ev
+  outcome : Outcome
+  stuck : Bool
+  deriving Repr, DecidableEq
+
+/-- run the closure generated for the component `k` (a middleware, the handler, `wrap_noop`). -/
+def runClosure (env : Env) (k : Kind) : Run :=
+  let g := env.graphOf k
+  let st := (runGraph g env.fails).1
+  let evs := outOf g env.fails st
+  ⟨evs, if st.errs.isEmpty then .ok else .err ((lastEhStatus env evs).getD 500), st.stuck⟩
 
 /-- events of the closure other than the call of its root, which the stage semantics expands -/
 def evOf : Ev → List PEv
@@ -464,35 +491,48 @@ structure Res where
   stuck : Bool
   deriving Repr, DecidableEq
 
+def Outcome.statusOr (o : Outcome) (s : Nat) : Nat :=
+  match o with
+  | .err e => e
+  | .ok => s
+
 /-- pre-processing middlewares of a stage: each closure runs; an `Err` arm or an early return leaves the
     `'incoming` block with a response. Returns the events and `some status` if the block was left. -/
 def runPresE (env : Env) : List Nat → List PEv × Option Nat × Bool
   | [] => ([], none, false)
   | p :: ps =>
-    let r := runGraph (env.graphOf (.mw p)) env.fails
-    let st := r.1
-    match outcomeOf env st with
-    | .err s => (expand [.pre p] st.out, some s, st.stuck)
+    let r := runClosure env (.mw p)
+    match r.outcome with
+    | .err s => (expand [.pre p] r.evs, some s, r.stuck)
     | .ok =>
-      if env.early p then (expand [.pre p, .early p] st.out, some 202, st.stuck)
+      if env.early p then (expand [.pre p, .early p] r.evs, some 202, r.stuck)
       else
         let rest := runPresE env ps
-        (expand [.pre p] st.out ++ rest.1, rest.2.1, st.stuck || rest.2.2)
+        (expand [.pre p] r.evs ++ rest.1, rest.2.1, r.stuck || rest.2.2)
 
 /-- post-processing middlewares: each closure receives the current response. -/
 def runPostsE (env : Env) : List Nat → Nat → List PEv × Nat × Bool
   | [], s => ([], s, false)
   | q :: qs, s =>
-    let r := runGraph (env.graphOf (.mw q)) env.fails
-    let st := r.1
-    let s' := match outcomeOf env st with
-      | .err e => e
-      | .ok => s
-    let rest := runPostsE env qs s'
-    (expand [.post q] st.out ++ rest.1, rest.2.1, st.stuck || rest.2.2)
+    let r := runClosure env (.mw q)
+    let rest := runPostsE env qs (r.outcome.statusOr s)
+    (expand [.post q] r.evs ++ rest.1, rest.2.1, r.stuck || rest.2.2)
 
-/-- ↔ the stage functions: `'incoming: { pres; middle }` then the posts. The middle closure of a stage
-    (a wrapping middleware) calls the next stage where it awaits `next`. -/
+/-- the middle of a stage: the closure of the handler, or of a wrapping middleware that runs the
+    remaining stages (`inner`) where it awaits `next`. -/
+def runMid (env : Env) (mid : Mid) (inner : Unit → Res) : Res :=
+  match mid with
+  | .handler h =>
+    let r := runClosure env (.handler h)
+    ⟨expand [.handler h] r.evs, r.outcome.statusOr 200, r.stuck⟩
+  | .wrap w =>
+    let r := runClosure env (.mw w)
+    if rootCalled r.evs then
+      let i := inner ()
+      ⟨expand ([.wrapStart w] ++ i.evs ++ [.wrapEnd w]) r.evs, r.outcome.statusOr i.status, r.stuck || i.stuck⟩
+    else ⟨expand [] r.evs, r.outcome.statusOr 0, r.stuck⟩
+
+/-- ↔ the stage functions: `'incoming: { pres; middle }` then the posts. -/
 def runStagesE (env : Env) : List Stage → Res
   | [] => ⟨[], 0, true⟩
   | s :: rest =>
@@ -500,18 +540,7 @@ def runStagesE (env : Env) : List Stage → Res
     let mid : Res :=
       match pres.2.1 with
       | some status => ⟨[], status, false⟩
-      | none =>
-        match s.mid with
-        | .handler h =>
-          let st := (runGraph (env.graphOf (.handler h)) env.fails).1
-          ⟨expand [.handler h] st.out, (match outcomeOf env st with | .err e => e | .ok => 200), st.stuck⟩
-        | .wrap w =>
-          let st := (runGraph (env.graphOf (.mw w)) env.fails).1
-          if rootCalled st.out then
-            let inner := runStagesE env rest
-            ⟨expand ([.wrapStart w] ++ inner.evs ++ [.wrapEnd w]) st.out,
-              (match outcomeOf env st with | .err e => e | .ok => inner.status), st.stuck || inner.stuck⟩
-          else ⟨expand [] st.out, (match outcomeOf env st with | .err e => e | .ok => 0), st.stuck⟩
+      | none => runMid env s.mid (fun _ => runStagesE env rest)
     let posts := runPostsE env s.posts mid.status
     ⟨pres.1 ++ mid.evs ++ posts.1, posts.2.1, pres.2.2 || mid.stuck || posts.2.2⟩
 
@@ -519,10 +548,10 @@ def runStagesE (env : Env) : List Stage → Res
     owns no pre/post-processing; what it builds are the request-scoped values shared by later stages),
     then the stages C05's `stages` describes. -/
 def runRoute (env : Env) (chain : List Mw) (h : Nat) : Res :=
-  let st := (runGraph (env.graphOf .noop) env.fails).1
-  if rootCalled st.out then
-    let inner := runStagesE env (Pxv.Pipe.stages chain h)
-    ⟨expand inner.evs st.out, (match outcomeOf env st with | .err e => e | .ok => inner.status), st.stuck || inner.stuck⟩
-  else ⟨expand [] st.out, (match outcomeOf env st with | .err e => e | .ok => 0), st.stuck⟩
+  let r := runClosure env .noop
+  if rootCalled r.evs then
+    let i := runStagesE env (Pxv.Pipe.stages chain h)
+    ⟨expand i.evs r.evs, r.outcome.statusOr i.status, r.stuck || i.stuck⟩
+  else ⟨expand [] r.evs, r.outcome.statusOr 0, r.stuck⟩
 
 end Pxv.Err
